@@ -4,7 +4,7 @@
    ids, different live connections and different DB-API connections.  Steps are atomic session
    calls in one thread; pre-emption inside a listener is outside the property's step notion. *)
 From Continuum Require Import Model.Base Model.VTable Model.Core Model.Manager Proofs.ManagerP
-     Gen.ManagerGen Proofs.ManagerGenP.
+     Gen.ManagerGen Proofs.ManagerGenP Model.Savepoint Model.ManagerSp Proofs.ManagerSpP Proofs.SavepointP.
 
 (* locality: a step of another session does not change anything this session can see (its unit of
    work, its map entry, its database) *)
@@ -91,6 +91,30 @@ Theorem C09_quiescent_after_commit : forall dbapi closed conn_of,
   aget (g_uows G') (ss_conn s) = None /\ aget (g_smap G') (ss_id s) = None.
 Proof. exact quiescent_after_commit. Qed.
 
+(* ---- sessions that open, roll back and release nested transactions (Model/ManagerSp.v: track_savepoint,
+   rollback_savepoint, forget_savepoints of manager.py and SAVEPOINT / ROLLBACK TO / RELEASE of the database).
+   What a session sees now includes its stack of open savepoints. *)
+Theorem C09_savepoint_locality : forall dbapi closed conn_of g S s s' x,
+  indep dbapi closed s s' -> sp_ok conn_of S -> owns conn_of s' -> owns conn_of s ->
+  view_sp (gsstep dbapi closed g S s' x) s = view_sp S s.
+Proof. exact sp_step_of_other_session_is_invisible. Qed.
+
+Theorem C09_interleaving_with_savepoints_equals_solo_run : forall dbapi closed conn_of,
+  (forall a b, conn_of a = conn_of b -> a = b) ->
+  forall g s sched,
+  owns conn_of s -> sched_ok_sp dbapi closed conn_of s sched ->
+  view_sp (gsrun dbapi closed g sched) s = view_sp (gsrun dbapi closed g (filter (mine_sp s) sched)) s.
+Proof. exact sp_interleaving_equals_solo_run. Qed.
+
+(* ... and that is the single-session savepoint machine of Savepoint.v: the theorems of C06 about savepoints
+   (C06_savepoint_restores, C06_savepoint_as_if_never_attempted) hold for every session of every interleaving *)
+Theorem C09_each_session_is_a_savepoint_run : forall dbapi closed conn_of,
+  (forall a b, conn_of a = conn_of b -> a = b) ->
+  forall g s sched,
+  owns conn_of s -> sched_ok_sp dbapi closed conn_of s sched ->
+  m_of (gsrun dbapi closed g sched) s = mrun g (map mev_of (map snd (filter (mine_sp s) sched))).
+Proof. exact interleaved_session_is_savepoint_run. Qed.
+
 Definition c9g : cfg := mkcfg true false false false false [mkcls true true 0 [mkcol true false true; mkcol false false true] []].
 Definition c9ins k v := mkev 0 0 [Some k; Some v] [true;true] [] [0%nat;1%nat] false true [false;false].
 Definition c9d := [mkobj 0 [false;true] [] true false].
@@ -103,6 +127,31 @@ Example C09_example :
   view G s1 = view (grun (fun c => c) (fun _ => false) c9g (filter (mine s1) sched)) s1.
 Proof. repeat split; vm_compute; reflexivity. Qed.
 
+(* two sessions, each with a savepoint rolled back over a flush, interleaved: the hypotheses are satisfiable, the
+   maps end empty, session 1 keeps only what it flushed outside the savepoint *)
+Example C09_savepoint_example :
+  let s1 := mksess 1 1 in let s2 := mksess 2 2 in
+  let sched := [(s1, SBegin); (s2, SE (Flush c9d [c9ins 1 7] [])); (s1, SE (Flush c9d [c9ins 1 5] []));
+                (s2, SBegin); (s1, SRollback); (s2, SE (Flush c9d [c9ins 2 7] [])); (s2, SRollback);
+                (s1, SE (Flush c9d [c9ins 2 5] [])); (s1, SE Commit); (s2, SE Commit)] in
+  let S := gsrun (fun c => c) (fun _ => false) c9g sched in
+  sched_ok_sp (fun c => c) (fun _ => false) (fun i => i) s1 sched /\
+  g_uows (gs_G S) = [] /\ g_smap (gs_G S) = [] /\
+  map l_key (d_live (s_committed (m_core (m_of S s1)))) = [[2]] /\
+  map l_key (d_live (s_committed (m_core (m_of S s2)))) = [[1]].
+Proof.
+  split; [|repeat split; vm_compute; reflexivity].
+  intros s' x Hin. split; [|].
+  - simpl in Hin. repeat (destruct Hin as [Hin|Hin]; [inversion Hin; reflexivity|]). contradiction.
+  - simpl in Hin.
+    repeat (destruct Hin as [Hin|Hin];
+            [inversion Hin; first [left; reflexivity | right; repeat split; simpl; congruence]|]). contradiction.
+Qed.
+
+Print Assumptions C09_savepoint_locality.
+Print Assumptions C09_interleaving_with_savepoints_equals_solo_run.
+Print Assumptions C09_each_session_is_a_savepoint_run.
+Print Assumptions C09_savepoint_example.
 Print Assumptions C09_locality.
 Print Assumptions C09_interleaving_equals_solo_run.
 Print Assumptions C09_quiescent_after_rollback.
